@@ -18,6 +18,11 @@ CLAIMED = {
    note="Trusted: Coq kernel + vm_compute + primitive floats; Reals axioms for the floor theorem; harness. The 1e-60 guard of EpsAlg is idealised away in the field theorems (property: 'as long as no table difference vanishes'); Shanks' theorem for k >= 2 transients, finiteness of Dea's float outputs and agreement Dea/dea3/EpsAlg on the first terms are explored by a sweep with an exact-rational epsilon table, not proved.",
    technique="Coq proof (mathcomp induction for the epsilon table; invariant over any Ops for Dea index safety) + bit-exact vm_compute correspondence of whole call histories",
    design="4/C14"),
+ 'C07': dict(
+   text="Machine-checked proof (Coq 8.16.1, over R) about the executable model of extrapolation.convolve + Richardson.__call__/_estimate_error: any weights w with w.R = e_0 (sum 1, annihilating rho^(i k) for every modelled exponent) map every window of L + sum_j a_j (h0 rho^t)^(k_j) to L; the model's convolution (scipy semantics: reflect mode, origin convention for even/odd filter sizes, rule reversed, origin n_r//2) equals the weighted sum on exactly the kept prefix for ALL lengths and rule sizes, reading no reflected element; hence every output slot of the model of __call__ equals L; output/step counts; all error estimates >= 0. The binary64 instance of the same definitions is compared bit-for-bit with the implementation each run; the pinv row is an oracle whose residual is certified in exact rationals.",
+   note="Trusted: Coq kernel + vm_compute + primitive floats; Reals axioms; harness; LAPACK pinv as an oracle with a per-run residual certificate (numerically singular configurations counted and excluded). scipy's symmetric/antisymmetric fast path is modelled; the exactness theorem assumes the rule is not (nearly) symmetric or has length 1, which the run checks for every recorded rule via the model's own symcode. Complex ratios/sequences are covered by the exact theorem (it holds over R only; the complex case by the thorough sweep) and rounding ('up to conditioning-scaled rounding') by the sweep with an exact-rational oracle, not proved.",
+   technique="Coq proof (Reals; list sums) + bit-exact vm_compute correspondence + exact-rational oracle certificate",
+   design="4/C07"),
 }
 REASON_TODO = "not claimed yet: the Coq model, theorems and correspondence for this property are still being built (see DESIGN.md section 8 for the order)"
 def main():
